@@ -97,7 +97,7 @@ def numeric_grad(func, x, backend, eps=None):
     # Convert backend tensors to numpy for gradient computation
     if backend.is_backend_array(x):
         x = backend.to_numpy(x)
-    x = np.asarray(x, dtype=float_dtype)
+    x = np.array(x, dtype=float_dtype)      # always a copy: the point is perturbed in place below
 
     grad = np.zeros_like(x, dtype=float_dtype)
     it = np.nditer(x, flags=['multi_index'], op_flags=['readwrite'])
